@@ -27,6 +27,14 @@ def jobs(tier):
                                     "driver signal send j fails with NoMemory", "cancel = hooks newest-first (as bus_transaction_cancel_and_free)"],
                              bounds=f"queue length {qn}; the {('allocation #%d' % koom) if koom else ('signal send #%d' % ksig)} of the operation fails; flags 32-bit, queue contents symbolic",
                              shape=f"{nm} under OOM ({tag}), queue length {qn}", cost=2 + qn))
+    # a completed RequestName / ReleaseName step cancelled by a LATER failure of the same transaction (reply building in the driver)
+    for op, nm in ((1, "release"),):      # RequestName followed by a cancel: no verdict in 900 s (F8 is covered by the fault-injection jobs)
+        for qn in (0, 1, 2, 3):
+            J.append(Job(name=f"names.{nm}.Q{qn}.late_cancel", group="C14.names_late", harness="harness/C14_services.c", defines={"QN": qn, "OP": op, "KOOM": 0, "KSIG": 0, "LATE": 1},
+                         real=REAL, env=ENV, checks="assert", unwind=8, unwindset=["vf_err_is.0:66", "memcpy.0:10", "memmove.0:10", "memmove.1:10"], timeout=900,
+                         encodes=["bus_registry_acquire_service", "bus_registry_release_service", "bus_service_remove_owner", "bus_service_add_owner", "cancel_ownership", "restore_ownership", "free_ownership_cancel_data", "free_ownership_restore_data"],
+                         stubs=["cancel = hooks newest-first (as bus_transaction_cancel_and_free)", "no fault inside the operation; the transaction is cancelled after it completed"],
+                         bounds=f"queue length {qn}; flags 32-bit, queue contents symbolic; cancel after the completed step", shape=f"{nm} then cancel, queue length {qn}", cost=2 + qn))
     import importlib.util, os
     sp = importlib.util.spec_from_file_location("vfjobs_x_C11", os.path.join(os.path.dirname(__file__), "C11.py")); m = importlib.util.module_from_spec(sp); m.Job = Job; sp.loader.exec_module(m)
     lj = m.loader_job(1, "C14.loader", skip_findings=False); lj.name = "loader.oom.F1"; J.append(lj)
